@@ -119,13 +119,15 @@ def run_turn_guarded(world, *a, **kw):
     """rw.run_turn with a wall-clock horizon (a turn that never returns is an observation, not a hung check)"""
     import signal
     signal.signal(signal.SIGALRM, _on_alarm)
-    signal.alarm(TURN_HORIZON_S)
+    # repeating: an exception raised from a signal handler can land in code that swallows it (asyncio's Handle._run
+    # reports a BaseException of a callback to the loop's exception handler and goes on) - it is raised again 3 s later
+    signal.setitimer(signal.ITIMER_REAL, TURN_HORIZON_S, 3)
     _IN_TURN[0] = True
     try:
         return rw.run_turn(world, *a, **kw)
     finally:
         _IN_TURN[0] = False
-        signal.alarm(0)
+        signal.setitimer(signal.ITIMER_REAL, 0)
 
 
 def check_reply(turn, hostile_list, user_text):
@@ -188,6 +190,7 @@ def explore(task):
         if ref.exc is not None:
             res["viol"].append((f"well-formed-run-raised:{version}:{mode}", repr(ref.exc), info0))
             continue
+        ref_utext = utext
         n_calls = max(1, len(ref.llm_calls))
         res["llm_positions"] += n_calls
         combos = [(k,) for k in range(n_calls + 1)]  # +1: a call that only exists after a hostile answer
@@ -232,6 +235,16 @@ def explore(task):
                     res["turns"] += 1
                     for sig, what in check_reply(t2, [h], utext):
                         res["viol"].append((f"{sig}:v2:{mode}:next-turn-after-call{pos[0]}", what, dict(info, second_turn=True)))
+        # whatever the LLM returned in the turns above is data of those turns: the same well-formed turn asked again on
+        # the instance that served them is answered as it was at the beginning
+        if not isinstance(world, type(None)):
+            again = run_turn_guarded(world, [{"role": "user", "content": ref_utext}], {}, wf, state={} if v2 else None)
+            res["turns"] += 1
+            res["well_formed_turns_repeated_on_the_used_instance"] = res.get("well_formed_turns_repeated_on_the_used_instance", 0) + 1
+            if again.exc is not None or again.text != ref.text:
+                res["viol"].append((f"well-formed-turn-answered-differently-on-the-used-instance:{'v2' if v2 else 'v1'}:{mode}",
+                                    f"the turn {ref_utext!r} with well-formed LLM answers replied {ref.text!r} on the fresh instance; after {res['turns']} turns on that instance "
+                                    f"(LLM answers of every corpus item at every call position) it replies {again.text!r} {again.exc!r}", dict(info0, user=ref_utext, repeat=True)))
         if pairs and n_calls >= 2:
             small = items[:12]
             for (a, b) in itertools.combinations(range(n_calls), 2):
